@@ -116,6 +116,14 @@ Theorem build_line_terminator_promise : forall norm, norm_ok norm -> forall c tr
 Proof. exact build_line_terminator_promise_proof. Qed.
 Print Assumptions build_line_terminator_promise.
 
+(* config.rs fixed-strings shortcut (Config::is_fixed_strings): when it is taken the ban check and the
+   stripping are skipped; the promise still holds because no pattern contains a terminator byte *)
+Theorem fixed_strings_shortcut_sound : forall ic sm fx lt pats s i j,
+  is_fixed_strings ic sm fx (Some lt) pats = true -> Matches (fixed_hir pats) s i j ->
+  forall p, i <= p < j -> is_term_byte lt (byte_at s p) = false.
+Proof. exact fixed_strings_shortcut_sound_proof. Qed.
+Print Assumptions fixed_strings_shortcut_sound.
+
 (* -w / -x wrapping keeps exactly the matches whose ends satisfy the two assertions *)
 Theorem wrap_meaning : forall c h s i j,
   Matches (wrap c h) s i j <->
